@@ -141,6 +141,10 @@ func ToValidatePeriod(now time.Time, v string, isRelative bool) (string, error) 
 	}
 
 	if isRelative {
+		// the relative form only carries days, hours, minutes and seconds here
+		if d >= maxRelativeValidity {
+			return "", fmt.Errorf("relative validity period must be shorter than 31 days")
+		}
 		return timeToSMPPTimeFormatRelative(d), nil
 	}
 	return timeToSMPPTimeFormatAbsolute(now, now.Add(d)), nil
@@ -171,6 +175,9 @@ const (
 	*/
 	smppAbsoluteTimeFormat = "060102150405"
 	smppRelativeTimeFormat = "0000%02d%02d%02d%02d000R" // 不支持年、月级别的超时时间
+
+	// the day field of the relative form wraps at 31 (months and years are not supported)
+	maxRelativeValidity = 31 * 24 * time.Hour
 )
 
 // timeToSMPPTimeFormatRelative 将时间t转为SMPP规定的时间格式——相对时间
